@@ -52,3 +52,71 @@ pub(crate) fn rec_finish(s: DeltaSerializer) -> Delta {
     std::mem::forget(s);
     Delta::default()
 }
+
+// ---------------------------------------------------------------------------------------------
+// C03 (grouping) / C09 (structure-aware): the real DeltaBuilder fed any sequence of <= 3 syntactically valid ops
+fn did(b: u8) -> ChitchatId { let mut s = String::with_capacity(1); s.push(b as char); ChitchatId::new(s, 0, ([127, 0, 0, 1], 1).into()) }
+#[derive(Clone, Copy)]
+struct OpSpec { kind: u8, id: u8, version: u64, gc: u64, from: u64 }
+/// op kind concrete (shape), payload symbolic; a symbolic kind makes CBMC merge the three DeltaOp variants and
+/// their heap pointers (measured: 11 GB for two ops)
+fn any_op(kind: u8) -> OpSpec {
+    let o = OpSpec { kind, id: kani::any(), version: kani::any(), gc: kani::any(), from: kani::any() };
+    kani::assume(o.id == b'x' || o.id == b'y');
+    o
+}
+fn mk_op(o: &OpSpec) -> DeltaOp {
+    match o.kind {
+        0 => DeltaOp::Node { chitchat_id: did(o.id), last_gc_version: o.gc, from_version_excluded: o.from },
+        1 => DeltaOp::KeyValue(KeyValueMutation { key: "a".to_string(), value: String::new(), version: o.version, status: DeletionStatusMutation::Set }),
+        _ => DeltaOp::SetMaxVersion { max_version: o.version },
+    }
+}
+/// Returns the decoded delta for an arbitrary op sequence (None = the decoder refused it).
+pub(crate) fn build_any_delta(n_ops: usize, kinds: [u8; 3], specs: &mut [OpSpec; 3]) -> Option<Delta> {
+    let mut b = DeltaBuilder::default();
+    let mut i = 0;
+    while i < n_ops {
+        specs[i] = any_op(kinds[i]);
+        if b.apply_op(mk_op(&specs[i])).is_err() { std::mem::forget(b); return None; }
+        i += 1;
+    }
+    Some(b.finish(1))
+}
+fn delta_grouping(n_ops: usize, k0: u8, k1: u8, k2: u8) {
+    let mut specs = [OpSpec { kind: 0, id: b'x', version: 0, gc: 0, from: 0 }; 3];
+    let d = build_any_delta(n_ops, [k0, k1, k2], &mut specs);
+    kani::cover!(d.is_some() && n_ops >= 2, "multi-op sequence accepted");
+    kani::cover!(d.is_none(), "sequence refused");
+    if let Some(d) = d {
+        // reference grouping: every op belongs to the last header before it
+        assert!(n_ops == 0 || specs[0].kind == 0, "C03: op accepted without a preceding member header");
+        let mut headers = 0; let mut i = 0;
+        while i < n_ops { if specs[i].kind == 0 { headers += 1; } i += 1; }
+        assert!(d.node_deltas.len() == headers, "C03: number of member sections differs from the number of headers");
+        if headers == 2 { assert!(d.node_deltas[0].chitchat_id != d.node_deltas[1].chitchat_id, "C03: the same member appears twice in one delta"); }
+        // walk the ops again
+        let mut sec: usize = 0; let mut kvs_in_sec = 0; let mut last_version = 0u64; let mut i = 0;
+        while i < n_ops {
+            let o = specs[i];
+            if o.kind == 0 {
+                if i > 0 { assert!(d.node_deltas[sec].key_values.len() == kvs_in_sec, "C03: key-values attributed to another member"); sec += 1; }
+                kvs_in_sec = 0; last_version = 0;
+                assert!(d.node_deltas[sec].chitchat_id.node_id.as_bytes()[0] == o.id && d.node_deltas[sec].last_gc_version == o.gc && d.node_deltas[sec].from_version_excluded == o.from, "C03: member header altered");
+            } else if o.kind == 1 {
+                assert!(o.version > last_version, "C09: non-increasing key-value versions accepted");
+                assert!(d.node_deltas[sec].key_values[kvs_in_sec].version == o.version, "C03: key-value version altered / cross-wired");
+                kvs_in_sec += 1; last_version = o.version;
+            } else { last_version = o.version; }
+            i += 1;
+        }
+        if n_ops > 0 { assert!(d.node_deltas[sec].key_values.len() == kvs_in_sec && d.node_deltas[sec].max_version == last_version, "C03: section max version differs from the last op"); }
+        std::mem::forget(d);
+    }
+}
+
+macro_rules! h_delta { ($name:ident, $unw:expr, $body:expr) => {
+    #[kani::proof]
+    #[kani::unwind($unw)]
+    fn $name() { $body }
+}}
